@@ -117,6 +117,15 @@ Proof.
   apply knw_oneof2; apply knw_from_list; assumption.
 Qed.
 
+Lemma anw_alt : forall a b T, anw a T -> anw b T -> anw (AAlt a b) T.
+Proof.
+  intros a b T Ha Hb k Hin. cbn [apply_acon] in Hin. unfold anw in Ha, Hb.
+  destruct (apply_acon a) as [|ka ra] eqn:Ea; [destruct Hin|].
+  destruct (apply_acon b) as [|kb rb] eqn:Eb; [destruct Hin|].
+  destruct Hin as [<-|[]].
+  apply knw_oneof2; apply knw_from_list; assumption.
+Qed.
+
 (* ---- every single constraint kind ---- *)
 Lemma nw_same : forall o s, bmember o [s] = true -> forall T, bmember_s o s = true \/ bmember o T = true.
 Proof. intros o s H T. left. rewrite bmember_single in H. exact H. Qed.
@@ -296,7 +305,7 @@ Proof. intros. rewrite map_map. reflexivity. Qed.
 
 Lemma cond_nw : forall c, anw (cond_acon c) (tested c) /\ anw (invert (cond_acon c)) (tested c).
 Proof.
-  induction c as [ |cs|cs|l|l|ls|op n|t|t|c0| |b0|po|n star|pre star post|po|kps|a IHa b IHb|c1|l1|n1 b1|c IH|a IHa b IHb|a IHa b IHb];
+  induction c as [ |cs|cs|l|l|ls|op n|t|t|c0| |b0|po|n star|pre star post|po|kps|a IHa b IHb|fl a IHa b IHb|c1|l1|n1 b1|c IH|a IHa b IHb|a IHa b IHb];
     cbn [cond_acon invert flip negb tested];
     try (split; apply anw_leaf;
          first [ apply knw_truthy | apply knw_isinstance | apply knw_isvalue | apply knw_addannot | apply knw_equals | apply knw_in | apply knw_lencmp | apply knw_lenpat
@@ -311,6 +320,11 @@ Proof.
                      |apply (anw_weaken _ (tested b)); [intros o; apply bmember_app_r|exact IHb1]].
     + apply anw_or; [apply (anw_weaken _ (tested a)); [intros o; apply bmember_app_l|exact IHa2]
                     |apply (anw_weaken _ (tested b)); [intros o; apply bmember_app_r|exact IHb2]].
+  - destruct IHa as [IHa1 IHa2]. destruct IHb as [IHb1 IHb2]. split.
+    + apply anw_alt; [apply (anw_weaken _ (tested a)); [intros o; apply bmember_app_l|exact IHa1]
+                     |apply (anw_weaken _ (tested b)); [intros o; apply bmember_app_r|exact IHb1]].
+    + apply anw_alt; [apply (anw_weaken _ (tested a)); [intros o; apply bmember_app_l|exact IHa2]
+                     |apply (anw_weaken _ (tested b)); [intros o; apply bmember_app_r|exact IHb2]].
   - destruct IH as [IH1 IH2]. split; [exact IH2|rewrite invert_involutive; exact IH1].
   - destruct IHa as [IHa1 IHa2]. destruct IHb as [IHb1 IHb2]. split.
     + apply anw_and; [apply (anw_weaken _ (tested b)); [intros o; apply bmember_app_r|exact IHb1]
